@@ -356,7 +356,7 @@ impl Part for C12Part {
     fn runs(&self, tier: Tier) -> u64 {
         match tier {
             Tier::Quick => 24_000,
-            Tier::Thorough => 2_000_000,
+            Tier::Thorough => 500_000,
         }
     }
     fn block(&self, _t: Tier) -> u64 {
@@ -809,7 +809,7 @@ impl Part for ConcurrentPart {
     fn runs(&self, tier: Tier) -> u64 {
         match tier {
             Tier::Quick => 4_000,
-            Tier::Thorough => 300_000,
+            Tier::Thorough => 100_000,
         }
     }
     fn block(&self, _t: Tier) -> u64 {
